@@ -4,6 +4,7 @@ import (
 	"bytes"
 	"errors"
 	"fmt"
+	"runtime"
 	"testing"
 
 	"github.com/free5gc/ike/security"
@@ -114,6 +115,8 @@ func c17Oracle(in c17In) probe.Outcome {
 		labels = append(labels, "op:"+op.Op)
 		step := fmt.Sprintf("step %d (%s)", i, op.Op)
 		if op.Bulk > 0 {
+			// bulk histories also walk through the processor counts (their bodies are large enough for code that splits work)
+			defer runtime.GOMAXPROCS(runtime.GOMAXPROCS(probe.ProcsFor(i)))
 			data := make(model.Bytes, op.Bulk)
 			for j := range data {
 				data[j] = byte(j*7+i*13) ^ byte(j>>8)
@@ -335,7 +338,7 @@ var c17History = probe.Define("C17", "history", func(t *rapid.T) c17In {
 		// bulk: one SA moves several megabytes (mostly protecting in one role)
 		role := rapid.Bool().Draw(t, "bulkrole")
 		for i := 0; i < 64; i++ {
-			op := c17Op{Op: "protect", AsI: role, Bulk: rapid.SampledFrom([]int{30000, 60000, 65000}).Draw(t, "bulk"), Producer: "fresh-lib", IV: make(model.Bytes, 16)}
+			op := c17Op{Op: "protect", AsI: role, Bulk: rapid.SampledFrom([]int{4100, 5000, 8300, 12000, 16000, 30000, 60000, 65000}).Draw(t, "bulk"), Producer: "fresh-lib", IV: make(model.Bytes, 16)}
 			if i%9 == 8 {
 				op.Op, op.AsI = "unprotect-genuine", !role
 			}
